@@ -281,7 +281,10 @@ def run_icc(ctx, R, cases):
         meta.append((ci, "emit", b"".join(seg_bytes(0xE2, d) for d in icc), None))
         for name, stream, exp, cfg in icc_variants(c, segs, tail, prof):
             line = "rd %s %s" % (cfg, stream.hex())
-            hl.append(line); ml.append(line); meta.append((ci, "rd:" + name, exp, None))
+            # the extracted model's second pass costs segments x length list operations: on the very long
+            # profiles it reads the stream-order and the reversed variant only
+            hl.append(line); ml.append(line if c["len"] <= 30 * CHUNK or name in ("plain", "reversed") else "-")
+            meta.append((ci, "rd:" + name, exp, None))
             if c["len"] <= 30 * CHUNK or name == "plain":
                 hl.append("tjrd -1 " + stream.hex()); ml.append("-"); meta.append((ci, "tjrd:" + name, exp, None))
         ctx.count(key, 1, ("icc", c["len"]))
@@ -301,7 +304,7 @@ def run_icc(ctx, R, cases):
                 ctx.violation("jpeg_read_icc_profile on %s stream (profile of %d bytes, written by %s API): got '%s', expected '%s'" % (
                     what[3:], c["len"], c["api"], got[:60], want), {"case": c, "variant": what, "impl": h[-200:]},
                     signature="icc-read:%s:%s" % (what[3:], "ok" if exp[0] == "ok" else exp[0]))
-            R.corr("icc-read", what, m, h, c, failed)
+            R.corr("icc-read", what, None if m == "-" else m, h, c, failed)
         else:
             got = h.rsplit("| ", 1)[-1].replace(" second-get-succeeded", "")
             w2 = want if exp[0] == "ok" else "icc absent"
